@@ -16,9 +16,14 @@ Clause status on this tree:
   slot window, consensus messages (repaired) ........... proved for 12-s-slot networks and a local clock between
                                                           genesis and year 2242 (C09_accept_slot_window); the wrap-around
                                                           regression is C09_slot_wraparound_now_refused
-  slot window, PARTIAL-SIGNATURE messages .............. NOT ENFORCED by the code: C09_partial_slot_window_full is
-                                                          refuted (witness: slot 2^64-1 accepted), known finding
-                                                          `C09/partial-sig-slot-window-unchecked`; what IS enforced:
+  slot window, PARTIAL-SIGNATURE messages .............. FUTURE side (repaired by 6c728adc1): proved
+                                                          (C09_partial_future_slot_refused, C09_partial_accept_cannot_pin_future;
+                                                          regression on the pre-repair guard list:
+                                                          C09_regression_unguarded_future_partial_mutes_signer).
+                                                          LATE side NOT ENFORCED by the code: C09_partial_slot_window_full is
+                                                          refuted (witness: a duty 1000 slots old accepted), known finding
+                                                          `C09/partial-sig-late-slot-unchecked`; harmless to the signer
+                                                          (C09_partial_late_slot_is_harmless_to_the_signer); what IS enforced:
                                                           C09_partial_accept_sound_partial
   round window per role ................................ proved   (C09_accept_round_window)
   per-signer monotone slot / round ..................... proved   (C09_accept_signer_monotone)
@@ -55,7 +60,7 @@ theorem C09_tie_guard_order :
 
 theorem C09_tie_guard_order_partial_and_p2p :
     Gen.calls_val_validatePartialSignatureMessage =
-      ["validPartialSigMsgType", "partialSignatureTypeMatchesRole", "validatePartialMessages", "consensusState",
+      ["validPartialSigMsgType", "partialSignatureTypeMatchesRole", "earlyMessage", "validatePartialMessages", "consensusState",
        "GetSignerState", "validateSignerBehaviorPartial", "validateSignatureFormat", "signatureVerifier",
        "CreateSignerState", "ResetSlot", "RecordPartialSignatureMessage"] ∧
     Gen.calls_val_validateP2PMessage =
@@ -331,12 +336,6 @@ theorem C09_refused_message_leaves_state (x : Ctx) (st : State) (i : Input) (h :
 
 /-! ## partial-signature messages -/
 
-/-- FULL clause (what the property asks): an accepted partial-signature message is for a slot inside the window —
-    not after the slot the clock is in (+1 tolerance) -/
-def C09_partial_slot_window_full : Prop :=
-  ∀ (x : Ctx) (st : State) (i : Input) (m : PMsg), Cfg12 x.cfg → RealisticClock x.cfg i.now → i.body = .partialSig m →
-    (validate x st i).2 = .accept → (m.slot : Int) ≤ curSlot x.cfg i.now + 1
-
 def partial1 : PMsg :=
   { ptype := 0, slot := 18446744073709551615, signer := 2, msgs := [{ signer := 2, root := 7, sigLen := 96, sigZero := false }],
     sigLen := 96, sigZero := false }
@@ -344,27 +343,123 @@ def pinput (m : PMsg) : Input :=
   { vid := 1, role := 0, dataLen := 300, domainOk := true, pkOk := true, share := some share4, body := .partialSig m,
     envSig := .none, now := GoTime.unix t0, wallEpoch := 1000 }
 
-/-- REFUTED on this tree: `validatePartialSignatureMessage` never looks at the clock. Witness: a post-consensus partial
-    signature message for slot 2^64 − 1 is accepted (reproduced on the real validator: known finding
-    `C09/partial-sig-slot-window-unchecked`) -/
+/-- FUTURE side of the slot window (repaired by 6c728adc1): an accepted partial-signature message is for a slot that is
+    not after the slot the receiver's clock is in — the same bound as for consensus messages -/
+theorem C09_partial_future_slot_refused (x : Ctx) (st : State) (i : Input) (m : PMsg) (hc : Cfg12 x.cfg)
+    (hr : RealisticClock x.cfg i.now) (hb : i.body = .partialSig m) (h : (validate x st i).2 = .accept) :
+    (m.slot : Int) ≤ curSlot x.cfg i.now := by
+  obtain ⟨_, sh, _, hcs⟩ := accept_cases x st i h
+  rcases hcs with ⟨m', hm', _, _⟩ | ⟨m', hm', _, hok⟩
+  · rw [hb] at hm'; cases hm'
+  · rw [hb] at hm'; cases hm'
+    exact not_early_spec x.cfg hc m.slot i.now hr hok.notEarly
+
+/-- the former witness (post-consensus partial signature message for slot 2^64 − 1, and for the slot after the
+    current one) is now turned down as early, leaves no trace, and the signer's honest prepare for the current slot is
+    accepted afterwards -/
+theorem C09_partial_future_slot_now_early :
+    (validate ctx0 State.empty (pinput partial1)).2 = .ignore .EarlyMessage ∧
+    (validate ctx0 State.empty (pinput { partial1 with slot := 32001 })).2 = .ignore .EarlyMessage ∧
+    (validate ctx0 State.empty (pinput { partial1 with slot := 32000 })).2 = .accept ∧
+    (validate ctx0 (validate ctx0 State.empty (pinput partial1)).1 (inputAt prepare1 t0)).2 = .accept := by decide
+
+/-- guard list of `validatePartialSignatureMessage` BEFORE repair 6c728adc1: no slot guard at all -/
+def partialChecksOld (x : Ctx) (st : State) (i : Input) (sh : Share) (m : PMsg) : List Chk :=
+  (partialChecks x st i sh m).eraseIdx 2
+
+/-- REGRESSION lemma on the pre-repair guard list (the former known finding `C09/partial-sig-slot-window-unchecked`):
+    without the early-message guard every guard passes for the slot-2^64−1 message, the state update pins the signer's
+    entry to that slot, and the signer's honest prepare for the current slot is then ignored -/
+theorem C09_regression_unguarded_future_partial_mutes_signer :
+    firstFail (partialChecksOld ctx0 State.empty (pinput partial1) share4 partial1) = .ok () ∧
+    (match update ctx0 State.empty (pinput partial1) with
+     | .ok st' => (validate ctx0 st' (inputAt prepare1 t0)).2
+     | .error _ => .accept) = .ignore .SlotAlreadyAdvanced := by decide
+
+/-- after an accepted partial-signature message the signer's entry sits exactly at the message's slot (the guard
+    `slot ≥ entry slot` passed, the update moves the entry up to the slot) -/
+theorem C09_partial_accept_entry_at_slot (x : Ctx) (st : State) (i : Input) (m : PMsg) (hb : i.body = .partialSig m)
+    (h : (validate x st i).2 = .accept) :
+    ∃ ss', (validate x st i).1 (i.vid, i.role, m.signer) = some ss' ∧ ss'.slot = m.slot := by
+  have hck := (validate_accept_iff x st i).mp h
+  have hupd := validate_state_of_accept x st i hck
+  obtain ⟨_, sh, _, hcs⟩ := accept_cases x st i h
+  rcases hcs with ⟨m', hm', _, _⟩ | ⟨m', hm', _, hok⟩
+  · rw [hb] at hm'; cases hm'
+  · rw [hb] at hm'; cases hm'
+    unfold update at hupd
+    rw [hb] at hupd
+    simp only at hupd
+    cases hu : updPartial x.cfg m (st (i.vid, i.role, m.signer)) with
+    | error e => rw [hu] at hupd; cases hupd
+    | ok ss' =>
+      rw [hu] at hupd
+      simp only at hupd
+      have hst : (validate x st i).1 = st.set (i.vid, i.role, m.signer) ss' := by
+        injection hupd with h'; exact h'.symm
+      refine ⟨ss', by rw [hst]; exact State.set_same _ _ _, ?_⟩
+      have hle : (Option.getD (st (i.vid, i.role, m.signer)) {}).slot ≤ m.slot := by
+        cases hs : st (i.vid, i.role, m.signer) with
+        | none => exact Nat.zero_le _
+        | some ss =>
+          have := hok.behaviorOk
+          rw [hs] at this
+          exact behaviorPartial_some_spec x.cfg i.role m ss this
+      unfold updPartial at hu
+      simp only at hu
+      split at hu
+      · cases hu
+        simp only
+        by_cases hgt : m.slot > (Option.getD (st (i.vid, i.role, m.signer)) {}).slot
+        · simp [hgt, SignerState.resetSlot]
+        · simp only [hgt, if_false]; omega
+      · cases hu
+
+/-- NO MUTING any more: an accepted partial-signature message never leaves the signer's entry beyond the slot the
+    receiver's clock is in, so a message of that signer for the current (or any later) slot is never turned down as a
+    slot regression because of it -/
+theorem C09_partial_accept_cannot_pin_future (x : Ctx) (st : State) (i : Input) (m : PMsg) (hc : Cfg12 x.cfg)
+    (hr : RealisticClock x.cfg i.now) (hb : i.body = .partialSig m) (h : (validate x st i).2 = .accept) :
+    ∃ ss', (validate x st i).1 (i.vid, i.role, m.signer) = some ss' ∧ (ss'.slot : Int) ≤ curSlot x.cfg i.now := by
+  obtain ⟨ss', h1, h2⟩ := C09_partial_accept_entry_at_slot x st i m hb h
+  exact ⟨ss', h1, by rw [h2]; exact C09_partial_future_slot_refused x st i m hc hr hb h⟩
+
+/-- FULL clause (what the property asks — "fits the slot window of its role"): an accepted partial-signature message
+    of a role with a time-to-live is for a slot inside [current − ttl, current] -/
+def C09_partial_slot_window_full : Prop :=
+  ∀ (x : Ctx) (st : State) (i : Input) (m : PMsg) (ttl : Nat), Cfg12 x.cfg → RealisticClock x.cfg i.now →
+    i.body = .partialSig m → lateTtl i.role = some ttl → (validate x st i).2 = .accept →
+    (m.slot : Int) ≤ curSlot x.cfg i.now ∧ curSlot x.cfg i.now ≤ (m.slot : Int) + ttl
+
+/-- a post-consensus partial signature message of an attester duty that ended 1000 slots ago (ttl: 34 slots) -/
+def partialLate : PMsg := { partial1 with slot := 31000 }
+
+/-- still REFUTED on this tree, on the LATE side only: `validatePartialSignatureMessage` calls `earlyMessage` but
+    neither `lateMessage` nor `validateSlotTime` (tie: C09_tie_guard_order_partial_and_p2p). Witness: the message for a
+    slot that ended 1000 slots ago is accepted by a peer without a newer entry for the signer (reproduced on the real
+    validator: known finding `C09/partial-sig-late-slot-unchecked`) -/
 theorem C09_partial_slot_window_full_refuted : ¬ C09_partial_slot_window_full := by
   intro hfull
   have hc : Cfg12 ctx0.cfg := ⟨rfl, by decide, by decide, by decide⟩
-  have hclk : RealisticClock ctx0.cfg (pinput partial1).now := by
+  have hclk : RealisticClock ctx0.cfg (pinput partialLate).now := by
     refine ⟨by decide, by decide, by decide, by decide⟩
-  have hacc : (validate ctx0 State.empty (pinput partial1)).2 = .accept := by decide
-  have := hfull ctx0 State.empty (pinput partial1) partial1 hc hclk rfl hacc
+  have hacc : (validate ctx0 State.empty (pinput partialLate)).2 = .accept := by decide
+  have := (hfull ctx0 State.empty (pinput partialLate) partialLate 34 hc hclk rfl (by decide) hacc).2
   revert this
   decide
 
-/-- … and afterwards the signer's honest message for the current slot is ignored (the entry is pinned to slot 2^64 − 1) -/
-theorem C09_partial_future_slot_mutes_signer :
-    (validate ctx0 (validate ctx0 State.empty (pinput partial1)).1 (inputAt prepare1 t0)).2 = .ignore .SlotAlreadyAdvanced := by decide
+/-- what the late message can and cannot do: the signer's honest traffic for the current slot is still accepted after
+    it (slots only move forward), and replaying it is refused once the entry has moved on -/
+theorem C09_partial_late_slot_is_harmless_to_the_signer :
+    (validate ctx0 (validate ctx0 State.empty (pinput partialLate)).1 (inputAt prepare1 t0)).2 = .accept ∧
+    (validate ctx0 (validate ctx0 State.empty (inputAt prepare1 t0)).1 (pinput partialLate)).2 = .ignore .SlotAlreadyAdvanced := by
+  decide
 
 /-- PARTIAL (what the code does enforce for an accepted partial-signature message): known type matching the role,
     signer a non-zero committee member, at least one message, all inner messages by the same signer with well-formed
     non-zero signatures and pairwise distinct signing roots, well-formed non-zero outer signature, operator signature as
-    for consensus messages, and the slot is not behind the signer's entry. Missing w.r.t. the property: the slot window. -/
+    for consensus messages, the slot has started (C09_partial_future_slot_refused) and is not behind the signer's entry.
+    Missing w.r.t. the property: the LATE side of the slot window. -/
 theorem C09_partial_accept_sound_partial (x : Ctx) (st : State) (i : Input) (m : PMsg) (hb : i.body = .partialSig m)
     (h : (validate x st i).2 = .accept) :
     ∃ sh, i.share = some sh ∧ validPartialSigMsgType m.ptype = true ∧ partialTypeMatchesRole m.ptype i.role = .ok true ∧
